@@ -114,9 +114,17 @@ def main(argv=None):
     modname = a.module or f"contracts.{pid.lower()}"
     if a.replay:
         rp = json.load(open(a.replay))
-        unit = rp["obligation"].split("/", 1)[1].split("[")[0].split("/")[0]
         cm = importlib.import_module(modname)
         reg = cm.build()
+        if not rp.get("model"):
+            # finite-back-end / static obligation: re-evaluate it on the current tree
+            obs = cm.extra_obligations(None, "quick", 0) if hasattr(cm, "extra_obligations") else []
+            hit = [o for o in obs if o["name"] == rp["obligation"]]
+            print(json.dumps(hit, indent=1, default=str)[:4000])
+            bad = any(o["status"] != "discharged" for o in hit)
+            print("REPLAY: obligation fails on the current tree" if bad else "REPLAY: obligation holds on the current tree")
+            return 1 if bad else 0
+        unit = rp["obligation"].split("/", 1)[1].split("[")[0].split("/")[0]
         file = next(f for (f, q) in reg.contracts if q == unit)
         job = model_to_job({"file": file, "unit": unit}, {"model": rp["model"], "name": rp["obligation"]}, "replay")
         out = run_native(modname, [job], os.environ.get("REDUINO_REPO", "/repo"))
